@@ -98,6 +98,10 @@ def make_pair(spec, eps):
         return one_f, poly_F
     if k == "inconsistent2":
         return sin2_f, poly_F
+    if k == "above":                 # monotone, right end points, but everywhere ABOVE the running integral of f = 1
+        return one_f, ((lambda x: 2.0 * x - x * x) if spec[1] == "quad" else (lambda x: math.sin(math.pi * x / 2.0)))
+    if k == "below":                 # ... everywhere BELOW it
+        return one_f, ((lambda x: x * x) if spec[1] == "quad" else (lambda x: 1.0 - math.cos(math.pi * x / 2.0)))
     if k == "negative":
         return wiggle_f, wiggle_F
     if k == "decreasing-F":          # F not monotone, waveform fine
@@ -251,12 +255,13 @@ PAIRS = [  # (spec, in the property's domain?)  expected verdicts come from the 
     (["shifted", 3.0], True), (["shifted", -3.0], True), (["shifted", 1000.0], True),
     (["wrong-end", 5.0], True), (["wrong-end", 1e4], True),
     (["inconsistent"], True), (["inconsistent2"], True), (["negative"], True), (["decreasing-F"], True),
+    (["above", "quad"], True), (["above", "sin"], True), (["below", "quad"], True), (["below", "cos"], True),
     # within eps of valid: accepted by design of the eps reading (the literal reading is refuted in Coq with this witness)
     (["coq-witness"], False), (["shifted", 0.4], False), (["unnormalised", 1.0 + 2e-7], False), (["between-grid"], False),
 ]
 EXPECT = {  # the property's own verdict for in-domain pairs (independent of the model): valid pairs pass, invalid pairs fail
     "poly": True, "sin2": True, "const": True, "unnormalised": False, "both-scaled": False, "shifted": False, "wrong-end": False,
-    "inconsistent": False, "inconsistent2": False, "negative": False, "decreasing-F": False,
+    "inconsistent": False, "inconsistent2": False, "negative": False, "decreasing-F": False, "above": False, "below": False,
 }
 
 
